@@ -920,6 +920,145 @@ Fixpoint live_after (live : list nat) (rs : list record) : list nat :=
       end
   end.
 
+(* ================================================================== Restart against signals and Stops *)
+(* Small-step model of ONE Instance.Restart running concurrently with any number of
+   executeShutdownCallbacks calls (signal handlers) and with the locked splices of concurrent
+   Instance.Stop calls, at the granularity of the locks taken: the Restart thread is a program of
+   atomic actions — one callback / server action (no lock), startWithListenerFds' locked append of
+   the new instance, the point at which the directives have registered the new instance's
+   callbacks, a locked splice (Instance.Stop of the old instance, or the deferred removal of the
+   new one after a failed start).  The handler's steps: the once-guard, instancesMu.Lock() with
+   the evaluation of the range expression, one iteration, the release.  While the handler holds
+   the lock, appends and splices block; callbacks do not. *)
+Inductive ract :=
+| AEv (e : event)        (* a callback / server action / hook of the Restart thread *)
+| AAppend (ni : inst)    (* instancesMu.Lock(); instances = append(instances, inst); Unlock() *)
+| AReg (i : nat)         (* the directives of instance i have been executed: its callbacks exist *)
+| ARemove (h : nat).     (* Lock(); splice h out; Unlock() *)
+
+Record rst := mkRst {
+  r_live : list inst;            (* var instances *)
+  r_unreg : list nat;            (* appended, callbacks not registered yet *)
+  r_lock : bool;                 (* instancesMu held by the handler *)
+  r_once : bool;                 (* shutdownCallbacksOnce fired *)
+  r_pend : bool;                 (* inside once.Do, before allShutdownCallbacks' Lock *)
+  r_hq : option (list inst);     (* the handler's loop: what is left of the range *)
+  r_iters : list inst;           (* ghost: instances whose callbacks the handler has run *)
+  r_prog : list ract;            (* rest of the Restart thread *)
+  r_tr : list (bool * event) }.  (* the trace; true = emitted by a handler *)
+
+Inductive rchoice :=
+| ChR                (* next action of the Restart thread *)
+| ChSig              (* a signal handler calls executeShutdownCallbacks: the once-guard *)
+| ChAcq | ChIter | ChRel
+| ChStop (h : nat).  (* the locked splice of a concurrent Instance.Stop *)
+
+Definition has_id (h : nat) (l : list inst) : bool := existsb (fun x => i_id x =? h) l.
+
+Definition rstep (m : rst) (c : rchoice) : option rst :=
+  match c with
+  | ChR =>
+      match r_prog m with
+      | [] => None
+      | AEv e :: p => Some (mkRst (r_live m) (r_unreg m) (r_lock m) (r_once m) (r_pend m) (r_hq m) (r_iters m) p
+                                  (r_tr m ++ [(false, e)]))
+      | AAppend ni :: p =>
+          if r_lock m || has_id (i_id ni) (r_live m) then None
+          else Some (mkRst (r_live m ++ [ni]) (i_id ni :: r_unreg m) (r_lock m) (r_once m) (r_pend m) (r_hq m) (r_iters m) p (r_tr m))
+      | AReg i :: p => Some (mkRst (r_live m) (remove_nat i (r_unreg m)) (r_lock m) (r_once m) (r_pend m) (r_hq m)
+                                   (r_iters m) p (r_tr m))
+      | ARemove h :: p =>
+          if r_lock m then None
+          else Some (mkRst (remove_id h (r_live m)) (r_unreg m) (r_lock m) (r_once m) (r_pend m) (r_hq m) (r_iters m) p (r_tr m))
+      end
+  | ChSig =>
+      if r_once m then Some m   (* idempotent: returns 0 *)
+      else Some (mkRst (r_live m) (r_unreg m) (r_lock m) true true (r_hq m) (r_iters m) (r_prog m)
+                       (r_tr m ++ [(true, EHook HShutdown 0)]))
+  | ChAcq =>
+      if r_pend m && negb (r_lock m)
+      then Some (mkRst (r_live m) (r_unreg m) true (r_once m) false (Some (r_live m)) (r_iters m) (r_prog m) (r_tr m))
+      else None
+  | ChIter =>
+      match r_hq m with
+      | Some (x :: q) =>
+          if existsb (Nat.eqb (i_id x)) (r_unreg m)
+          then Some (mkRst (r_live m) (r_unreg m) (r_lock m) (r_once m) (r_pend m) (Some q) (r_iters m) (r_prog m) (r_tr m))
+          else Some (mkRst (r_live m) (r_unreg m) (r_lock m) (r_once m) (r_pend m) (Some q) (r_iters m ++ [x]) (r_prog m)
+                           (r_tr m ++ map (pair true) (shutdown_cbs x)))
+      | _ => None
+      end
+  | ChRel =>
+      match r_hq m with
+      | Some [] => Some (mkRst (r_live m) (r_unreg m) false (r_once m) (r_pend m) None (r_iters m) (r_prog m) (r_tr m))
+      | _ => None
+      end
+  | ChStop h =>
+      if r_lock m then None
+      else Some (mkRst (remove_id h (r_live m)) (r_unreg m) (r_lock m) (r_once m) (r_pend m) (r_hq m) (r_iters m) (r_prog m) (r_tr m))
+  end.
+
+Fixpoint rrun (m : rst) (cs : list rchoice) : option rst :=
+  match cs with
+  | [] => Some m
+  | c :: r => match rstep m c with Some m' => rrun m' r | None => None end
+  end.
+
+Definition rinit (l : list inst) (p : list ract) : rst := mkRst l [] false false false None [] p [].
+
+Definition htrace (m : rst) : list event := map snd (filter fst (r_tr m)).
+Definition rtrace (m : rst) : list event := map snd (filter (fun x => negb (fst x)) (r_tr m)).
+Definition ftrace (m : rst) : list event := map snd (r_tr m).
+Definition prog_events (p : list ract) : list event :=
+  flat_map (fun a => match a with AEv e => [e] | _ => [] end) p.
+
+(* the registration point: right after NewContext (the directives run between NewContext and
+   MakeServers) *)
+Fixpoint ins_reg (i : nat) (l : list event) : list ract :=
+  match l with
+  | [] => []
+  | ENew j :: r => if j =? i then AEv (ENew j) :: AReg i :: map AEv r else AEv (ENew j) :: ins_reg i r
+  | e :: r => AEv e :: ins_reg i r
+  end.
+
+(* Instance.Restart of o with configuration c in process state s, as a program *)
+Definition restart_prog (o : inst) (c : config) (s : state) : list ract :=
+  let h := i_id o in
+  let failed := map AEv (run_all KRestartFailed h (c_rfailed (i_cfg o))) in
+  let '(e1, ok1) := run_stop KRestart h (c_restart (i_cfg o)) in
+  if negb ok1 then map AEv e1 ++ failed else
+  let i := next s in
+  let '(e2, ok2, saved) := start_plan c i true (i_srv o) h in
+  let ni := mkInst i (i_root o) c saved in
+  if negb ok2 then map AEv e1 ++ AAppend ni :: ins_reg i e2 ++ ARemove i :: failed else
+  let s1 := commit ni (next_after c i) s in
+  let '(_, e3) := stop_inst o s1 in
+  map AEv e1 ++ AAppend ni :: ins_reg i e2 ++ map AEv e3 ++ ARemove h ::
+  map AEv (run_all KShutdown h (c_shutdown (i_cfg o))) ++ [AEv (EHook HInstanceStartup i)].
+
+(* the schedule the harness forces: the Restart thread runs up to and including the first
+   callback of kind [g] (held there), a signal handler runs to completion, the Restart goes on *)
+Fixpoint gate_pos (g : kind) (p : list ract) : option nat :=
+  match p with
+  | [] => None
+  | AEv (ECb k _ _) :: r => if kind_eqb k g then Some 1 else option_map S (gate_pos g r)
+  | _ :: r => option_map S (gate_pos g r)
+  end.
+
+Definition gate_run (g : kind) (m : rst) : option rst :=
+  match gate_pos g (r_prog m) with
+  | Some n =>
+      match rrun m (repeat ChR n) with
+      | Some m1 =>
+          match rrun m1 (ChSig :: ChAcq :: repeat ChIter (length (r_live m1)) ++ [ChRel]) with
+          | Some m2 => rrun m2 (repeat ChR (length (r_prog m2)))
+          | None => None
+          end
+      | None => None
+      end
+  | None => rrun m (repeat ChR (length (r_prog m)))
+  end.
+
 (* ================================================================== cases *)
 Inductive case :=
 | CHist (recs : list record)
@@ -932,7 +1071,12 @@ Inductive case :=
      held until those Stops had returned or were seen blocked); [ev] = everything logged from
      the call until all of it had returned, [code] the exit status, [after] casket.Instances()
      at the end *)
-| CConc (recs : list record) (stops : list nat) (ev : list event) (code : nat) (after : list nat).
+| CConc (recs : list record) (stops : list nat) (ev : list event) (code : nat) (after : list nat)
+  (* after the history [recs], Instance.Restart of handle [h] with configuration [c] was held
+     inside its first callback of kind [g]; while it was held executeShutdownCallbacks ran to
+     completion (exit status [code]; 0 when no such callback ran); then the Restart went on:
+     [ev] = everything logged, [res] what Restart returned *)
+| CRace (recs : list record) (h : nat) (c : config) (g : kind) (ev : list event) (res : result) (code : nat).
 
 Definition judge (c : case) : N :=
   match c with
@@ -990,4 +1134,31 @@ Definition judge (c : case) : N :=
         end
         && nat_list_eqb after (filter (fun i => negb (existsb (Nat.eqb i) stops)) (live_after [] recs)) in
       verdict agree spec
+  | CRace recs h c g ev res code =>
+      let ops := map rec_op recs in
+      let s := final init ops in
+      match find_inst h (known s) with
+      | None => verdict false false
+      | Some o =>
+          let all := recs ++ [(ORestart h c, ev, res)] in
+          let agree :=
+            recs_agree (run init ops) recs &&
+            match gate_run g (rinit (insts s) (restart_prog o c s)) with
+            | Some m => list_beq ev_eqb (sync_of (ftrace m)) (sync_of ev)
+                        && same_multiset (async_of (ftrace m)) (async_of ev)
+                        && (code =? (if all_errs (r_iters m) =? 0 then 0 else 4))
+            | None => false
+            end &&
+            res_eqb res (snd (do_restart h c s)) in
+          (* whatever the interleaving: one shutdown event at most, and every instance's shutdown
+             and final-shutdown callbacks at most once, in order *)
+          let spec :=
+            spec_hist recs &&
+            (count_ev (EHook HShutdown 0) ev <=? 1) &&
+            forallb (fun i => match cfg_of i all with
+                              | Some ci => is_prefix (proj KShutdown i ev) (labels (c_shutdown ci))
+                                           && is_prefix (proj KFinal i ev) (labels (c_final ci))
+                              | None => false end) (all_ids all) in
+          verdict agree spec
+      end
   end.
